@@ -37,6 +37,18 @@ import ctlfuncs_twin  # noqa: E402
 _ADDR = re.compile(r"0x[0-9a-fA-F]+")
 
 
+def _ascii(v):
+    """Trace records carry ASCII only (non-ASCII characters as <U+XXXX>): both sides of every comparison are mapped alike, and
+    the TLA+ side never depends on how TLC and its JSON module treat characters outside ASCII."""
+    if isinstance(v, str):
+        if v.isascii():
+            return v
+        return "".join(ch if ord(ch) < 127 else "<U+%04X>" % ord(ch) for ch in v)
+    if isinstance(v, list):
+        return [_ascii(x) for x in v]
+    return v
+
+
 def norm(text):
     """Object addresses differ between the served pool's and the twin's objects: not part of the comparison."""
     return _ADDR.sub("0x?", text.replace("ctlfuncs_twin", "ctlfuncs"))
@@ -230,9 +242,9 @@ class CtlWorld:
 
     def ev(self, _e, **f):
         rec = {"e": _e}
-        rec.update(f)
-        rec["pobs"] = self.pobs(self.pool)
-        rec["tobs"] = self.pobs(self.twin) if getattr(self, "twin", None) is not None else ""
+        rec.update({k: _ascii(v) for k, v in f.items()})
+        rec["pobs"] = _ascii(self.pobs(self.pool))
+        rec["tobs"] = _ascii(self.pobs(self.twin)) if getattr(self, "twin", None) is not None else ""
         self.trace.append(rec)
         return rec
 
